@@ -35,6 +35,7 @@ func main() {
 	random := flag.Int("random", 0, "generate this many random histories instead of reading -hist")
 	rlen := flag.Int("rlen", 40, "length of random histories")
 	verbose := flag.Bool("v", false, "perkeep logs to stderr")
+	univKind := flag.String("univ", "std", "universe: std | packable (the file schema blob describes a file made of the big blob: blobpacked packs them)")
 	flag.Parse()
 	if !*verbose {
 		log.SetOutput(io.Discard)
@@ -78,6 +79,40 @@ func main() {
 		f.Close()
 	}
 	u := univ.Standard(*n, *seed)
+	if *univKind == "packable" {
+		u = univ.Packable(*n, *seed)
+	}
+	if *univKind == "packable" && *random > 0 {
+		// every history starts by storing the file (big chunk, then its schema blob: the store packs them) and a random
+		// subset of the other blobs, pages through everything with small limits from every cursor, and goes on at random
+		prng := rand.New(rand.NewSource(*seed + 77))
+		bigRk, fileRk := 0, 0
+		for _, b := range u.Blobs {
+			if b.Kind == "big" {
+				bigRk = b.Rank
+			}
+			if b.Kind == "schema" && bytes.Contains(b.Data, []byte(`"camliType": "file"`)) {
+				fileRk = b.Rank
+			}
+		}
+		for hi := range hists {
+			pre := []drv.Op{{Op: "receive", B: bigRk}, {Op: "receive", B: fileRk}}
+			for _, b := range u.Blobs {
+				if b.Rank != bigRk && b.Rank != fileRk && prng.Intn(2) == 0 {
+					pre = append(pre, drv.Op{Op: "receive", B: b.Rank})
+				}
+			}
+			if prng.Intn(3) == 0 {
+				pre[0], pre[1] = pre[1], pre[0] // schema first: nothing to pack until a later receive of the schema
+			}
+			for lim := 1; lim <= 3; lim++ {
+				for a := 0; a <= 2*len(u.Blobs)+1; a++ {
+					pre = append(pre, drv.Op{Op: "enum", After: a, Limit: lim, Form: prng.Intn(3)})
+				}
+			}
+			hists[hi] = append(pre, hists[hi]...)
+		}
+	}
 	for hi, h := range hists {
 		if err := runHist(cfg, u, hi, h, lg, *scratch, *observe); err != nil {
 			fatal(err)
